@@ -12,6 +12,7 @@ import (
 	"verifharness/gen"
 	"verifharness/mc"
 	"verifharness/props/reg"
+	"verifharness/sched"
 )
 
 func init() { reg.Register(&reg.Prop{ID: "C03", Run: Run, Replay: Replay}) }
@@ -382,6 +383,9 @@ func Run(r *mc.Run) {
 			return true
 		})
 
+	// the same entry points called at the same time on independent inputs: every schedule of small thread programs (instrumented build)
+	sched.Explore(r, "concurrent-calls", ConcurrentPrograms())
+
 	// ---- D: reused receiver ----
 	reuse := []string{"1.0", "1:2.0-3", "2.1", "0:1", "1-1", "3:4", "5-6-7", "1.0~rc1", " 2.0 ", "", "x", "1:", "7:1.0-1+b2"}
 	reuse = append(reuse, gen.AuditStrings(gen.Versionish, 3)...)
@@ -505,6 +509,9 @@ func checkReuse(scen string, in ReuseIn) *mc.Violation {
 }
 
 func Replay(scenario string, raw json.RawMessage) []*mc.Violation {
+	if scenario == "concurrent-calls" {
+		return sched.Replay(scenario, ConcurrentPrograms(), raw)
+	}
 	switch {
 	case strings.HasPrefix(scenario, "D-"):
 		var in ReuseIn
